@@ -319,7 +319,10 @@ def flatten(a):
         return Arr(1, (1,), lambda i: a.elem(), a.dtype)
     r, c = a.shape
     if is_lit(r, 1):
-        return Arr(1, (c,), lambda i: a.elem(I0, i), a.dtype, intdtype=a.intdtype)
+        rr = Arr(1, (c,), lambda i: a.elem(I0, i), a.dtype, intdtype=a.intdtype)
+        if a.dtype == "num":
+            rr.pt = a.row(I0)
+        return rr
     if is_lit(c, 1):
         return Arr(1, (r,), lambda i: a.elem(i, I0), a.dtype, intdtype=a.intdtype)
     return Arr(1, (r * c,), lambda i: a.elem(i / c, i % c), a.dtype, intdtype=a.intdtype)
@@ -358,6 +361,7 @@ def mask_select(a, m, axis=0):
     c.add_fact(z3.And(n >= 0, n <= rows))
     inv = c.uf(nm + "!inv", z3.IntSort(), z3.IntSort())
     done = []
+    dfn = [nm, nm + "!inv"]
 
     def axioms():
         # emitted lazily: only when an element of the selection is actually used
@@ -367,20 +371,20 @@ def mask_select(a, m, axis=0):
         saved, c.binders = c.binders, []
         k, k2, i = z3.Int(nm + "!k"), z3.Int(nm + "!k2"), z3.Int(nm + "!i")
         # strictly increasing (order preserving)
-        c.add_fact(z3.ForAll([k, k2], z3.Implies(z3.And(0 <= k, k < k2, k2 < n), sel(k) < sel(k2)), patterns=[z3.MultiPattern(sel(k), sel(k2))]))
+        c.add_fact(z3.ForAll([k, k2], z3.Implies(z3.And(0 <= k, k < k2, k2 < n), sel(k) < sel(k2)), patterns=[z3.MultiPattern(sel(k), sel(k2))]), defines=dfn)
         # completeness through an inverse
         c.binders.append([i])
         try:
             mi = m.elem(i)
         finally:
             c.binders.pop()
-        c.add_fact(z3.ForAll([i], z3.Implies(z3.And(0 <= i, i < rows, mi), z3.And(0 <= inv(i), inv(i) < n, sel(inv(i)) == i)), patterns=[inv(i)]))
-        c.add_fact(z3.ForAll([k], z3.Implies(z3.And(0 <= k, k < n), z3.And(0 <= sel(k), sel(k) < rows, inv(sel(k)) == k)), patterns=[sel(k)]))
+        c.add_fact(z3.ForAll([i], z3.Implies(z3.And(0 <= i, i < rows, mi), z3.And(0 <= inv(i), inv(i) < n, sel(inv(i)) == i)), patterns=[inv(i)]), defines=dfn)
+        c.add_fact(z3.ForAll([k], z3.Implies(z3.And(0 <= k, k < n), z3.And(0 <= sel(k), sel(k) < rows, inv(sel(k)) == k)), patterns=[sel(k)]), defines=dfn)
         c.binders = saved
 
     def fact_at(kk):
         axioms()
-        c.add_fact(z3.Implies(z3.And(0 <= kk, kk < n), z3.And(0 <= sel(kk), sel(kk) < rows, m.elem(sel(kk)))), key=("sel", nm, str(kk)))
+        c.add_fact(z3.Implies(z3.And(0 <= kk, kk < n), z3.And(0 <= sel(kk), sel(kk) < rows, m.elem(sel(kk)))), key=("sel", nm, str(kk)), defines=dfn)
 
     if a.ndim == 1:
         def el(kk):
@@ -394,6 +398,12 @@ def mask_select(a, m, axis=0):
             return a.elem(sel(kk), j)
 
         r = Arr(2, (n, a.shape[1]), el, a.dtype)
+        if a.dtype == "num":
+            def rowf(kk):
+                fact_at(kk)
+                return a.row(sel(kk))
+
+            r.rowf = rowf
     r.sel = (sel, n, m, inv)
     return r
 
@@ -407,7 +417,10 @@ def index_vals(eng, a, idx):
         return Val.of_bool(e) if a.dtype == "bool" else Val.of_num(e)
     if len(ii) == 1 and a.ndim == 2:
         i = ii[0]
-        return Val.of_arr(Arr(1, (a.shape[1],), lambda j: a.elem(i, j), a.dtype))
+        r = Arr(1, (a.shape[1],), lambda j: a.elem(i, j), a.dtype)
+        if a.dtype == "num":
+            r.pt = a.row(i)
+        return Val.of_arr(r)
     return None
 
 
@@ -482,7 +495,10 @@ def index(eng, a, sl, st, node):
         if a.ndim == 1:
             return Val.of_arr(Arr(1, ia.shape, lambda k: a.elem(_toint(ia.elem(k))), a.dtype))
         lo1, n1 = kinds[1][1], kinds[1][2]
-        return Val.of_arr(Arr(2, (ia.shape[0], n1), lambda k, j: a.elem(_toint(ia.elem(k)), lo1 + j), a.dtype))
+        r = Arr(2, (ia.shape[0], n1), lambda k, j: a.elem(_toint(ia.elem(k)), lo1 + j), a.dtype)
+        if a.dtype == "num" and is_lit(lo1, 0) and n1.eq(a.shape[1]):
+            r.rowf = lambda k: a.row(_toint(ia.elem(k)))
+        return Val.of_arr(r)
     if any(k[0] == "arr" for k in kinds):
         return None
     # ints and slices
@@ -501,7 +517,15 @@ def index(eng, a, sl, st, node):
     if not out_dims:
         e = el()
         return Val.of_bool(e) if a.dtype == "bool" else Val.of_num(e)
-    return Val.of_arr(Arr(len(out_dims), tuple(n for _, n in out_dims), el, a.dtype, intdtype=a.intdtype))
+    r = Arr(len(out_dims), tuple(n for _, n in out_dims), el, a.dtype, intdtype=a.intdtype)
+    if a.dtype == "num" and a.ndim == 2:
+        full_cols = kinds[1][0] == "slice" and is_lit(kinds[1][1], 0) and z3.simplify(kinds[1][2]).eq(z3.simplify(a.shape[1]))
+        if full_cols and kinds[0][0] == "slice":
+            lo0 = kinds[0][1]
+            r.rowf = lambda k: a.row(z3.simplify(lo0 + k))
+        elif full_cols and kinds[0][0] == "int":
+            r.pt = a.row(kinds[0][1])
+    return Val.of_arr(r)
 
 
 def _toint(n):
@@ -581,7 +605,13 @@ def store(eng, a, sl, v, st, node):
 
     if va is None:
         rhs = scalar_rhs()
-        return Arr(a.ndim, a.shape, lambda *i: _ite(inside(*i), _trunc_if_int(a, rhs), a.elem(*i), a.dtype), a.dtype, intdtype=a.intdtype)
+        r = Arr(a.ndim, a.shape, lambda *i: _ite(inside(*i), _trunc_if_int(a, rhs), a.elem(*i), a.dtype), a.dtype, intdtype=a.intdtype)
+        if a.dtype == "bool" and a.ndim == 1 and kinds[0][0] == "int":
+            # T3: count under a single-element update
+            k0 = kinds[0][1]
+            old = a.elem(k0)
+            r.cnt = count_true(a) + z3.If(z3.And(k0 >= 0, k0 < a.shape[0]), z3.If(rhs, 1, 0) - z3.If(old, 1, 0), 0)
+        return r
     # array rhs: map target index -> rhs index (broadcast, trailing alignment)
     sl_dims = [d for d, k in enumerate(kinds) if k[0] == "slice"]
 
@@ -839,7 +869,9 @@ def np_full(eng, st, args, kw, node):
     fv = args[1] if len(args) > 1 else kw.get("fill_value")
     if fv.boo is not None and fv.num is None:
         b = fv.boo
-        return Val.of_arr(Arr(len(shp), shp, lambda *i: b, "bool"))
+        r = Arr(len(shp), shp, lambda *i: b, "bool")
+        r.cnt = z3.If(b, r.size(), z3.IntVal(0))
+        return Val.of_arr(r)
     if fv.is_static_none():
         return Val.of_arr(Arr(len(shp), shp, lambda *i: N(float("nan")), "num"))
     n = fv.get_num()
@@ -887,7 +919,10 @@ def np_vstack(eng, st, args, kw, node):
         return opaque("vstack")
     a, b = arr_promote(a, 2), arr_promote(b, 2)
     ra = a.shape[0]
-    return Val.of_arr(Arr(2, (z3.simplify(ra + b.shape[0]), a.shape[1]), lambda i, j: _ite(i < ra, a.elem(i, j), b.elem(i - ra, j), a.dtype), a.dtype))
+    r = Arr(2, (z3.simplify(ra + b.shape[0]), a.shape[1]), lambda i, j: _ite(i < ra, a.elem(i, j), b.elem(i - ra, j), a.dtype), a.dtype)
+    if a.dtype == "num":
+        r.rowf = lambda i: z3.If(i < ra, a.row(i), b.row(i - ra))
+    return Val.of_arr(r)
 
 
 def np_append(eng, st, args, kw, node):
@@ -897,7 +932,10 @@ def np_append(eng, st, args, kw, node):
         return opaque("append")
     if a.ndim == 1 and ax in (None, 0):
         ra = a.shape[0]
-        return Val.of_arr(Arr(1, (z3.simplify(ra + b.shape[0]),), lambda i: _ite(i < ra, a.elem(i), b.elem(i - ra), a.dtype), a.dtype))
+        r = Arr(1, (z3.simplify(ra + b.shape[0]),), lambda i: _ite(i < ra, a.elem(i), b.elem(i - ra), a.dtype), a.dtype)
+        if a.dtype == "bool":
+            r.cnt = count_true(a) + count_true(b)  # T3: count is additive under concatenation
+        return Val.of_arr(r)
     if a.ndim == 2 and ax == 0:
         ra = a.shape[0]
         return Val.of_arr(Arr(2, (z3.simplify(ra + b.shape[0]), a.shape[1]), lambda i, j: _ite(i < ra, a.elem(i, j), b.elem(i - ra, j), a.dtype), a.dtype))
@@ -996,37 +1034,74 @@ def np_sum(eng, st, args, kw, node):
     return opaque("sum")
 
 
+def materialize(a):
+    """Give a derived real array an identity (row terms are UF applications instead of lambdas)."""
+    if a.dtype != "num" or a.ndim not in (1, 2):
+        return a
+    if (a.ndim == 2 and a.rowf is not None) or (a.ndim == 1 and a.pt is not None):
+        return a
+    c = ctx()
+    nm = c.fresh("mat")
+    m = arr_fresh(nm, a.ndim, a.shape)
+    vs = [z3.Int(nm + "!%d" % d) for d in range(a.ndim)]
+    saved, c.binders = c.binders, []
+    c.binders.append(vs)
+    try:
+        e = a.elem(*vs)
+    finally:
+        c.binders.pop()
+    if e.t is not None:
+        c.binders = saved
+        return a
+    c.add_fact(z3.ForAll(vs, m.elem(*vs).r == _real(e.r), patterns=[m.elem(*vs).r]), defines=[nm])
+    c.binders = saved
+    m.intdtype = a.intdtype
+    return m
+
+
 def np_unique(eng, st, args, kw, node):
+    """np.unique(a, axis=0, return_index=True): first-occurrence indices of the distinct rows.
+    (The lexicographic order of the result is not modelled: callers re-sort the indices.)"""
     a = as_arr_or_none(args[0])
     ax = _axis(kw, args, 99)
     ri = kw.get("return_index")
     if a is None or a.ndim != 2 or ax != 0:
         return opaque("unique")
+    a = materialize(a)
     c = ctx()
     nm = c.fresh("uniq")
     n = z3.Int(nm + "!n")
     idx = c.uf(nm, z3.IntSort(), z3.IntSort())
+    rep = c.uf(nm + "!rep", z3.IntSort(), z3.IntSort())
     rows, cols = a.shape
     c.add_fact(z3.And(n >= 0, n <= rows, z3.Implies(rows > 0, n > 0)))
-    k, k2, i, j = z3.Int(nm + "!k"), z3.Int(nm + "!k2"), z3.Int(nm + "!i"), z3.Int(nm + "!j")
-    wit = c.uf(nm + "!w", z3.IntSort(), z3.IntSort(), z3.IntSort())  # distinguishing column
-    c.binders.append([k, k2, i, j])
-    try:
-        differ = n_ne(a.elem(idx(k), wit(k, k2)), a.elem(idx(k2), wit(k, k2)))
-        same_row = n_eq(a.elem(i, j), a.elem(idx(c.uf(nm + "!rep", z3.IntSort(), z3.IntSort())(i)), j))
-    finally:
-        c.binders.pop()
-    rep = c.uf(nm + "!rep", z3.IntSort(), z3.IntSort())
-    # range of indices
-    c.add_fact(z3.ForAll([k], z3.Implies(z3.And(0 <= k, k < n), z3.And(0 <= idx(k), idx(k) < rows)), patterns=[idx(k)]))
-    # pairwise distinct rows
-    c.add_fact(z3.ForAll([k, k2], z3.Implies(z3.And(0 <= k, k < n, 0 <= k2, k2 < n, k != k2), z3.And(0 <= wit(k, k2), wit(k, k2) < cols, differ)), patterns=[z3.MultiPattern(idx(k), idx(k2))]))
-    # every input row is represented; representative is the first occurrence
-    c.add_fact(z3.ForAll([i], z3.Implies(z3.And(0 <= i, i < rows), z3.And(0 <= rep(i), rep(i) < n, idx(rep(i)) <= i)), patterns=[rep(i)]))
-    c.add_fact(z3.ForAll([i, j], z3.Implies(z3.And(0 <= i, i < rows, 0 <= j, j < cols), same_row), patterns=[z3.MultiPattern(rep(i), a.elem(i, j).r)] if False else None))
-    uniq = Arr(2, (n, cols), lambda kk, jj: a.elem(idx(kk), jj), a.dtype)
-    iarr = Arr(1, (n,), lambda kk: N(idx(kk)), "num")
-    iarr.uniq = (nm, idx, n, a, wit, rep)
+    done = []
+
+    def axioms():
+        if done:
+            return
+        done.append(1)
+        saved, c.binders = c.binders, []
+        k, k2, i = z3.Int(nm + "!k"), z3.Int(nm + "!k2"), z3.Int(nm + "!i")
+        dfn = [nm, nm + "!rep"]
+        c.add_fact(z3.ForAll([k], z3.Implies(z3.And(0 <= k, k < n), z3.And(0 <= idx(k), idx(k) < rows, rep(idx(k)) == k)), patterns=[idx(k)]), defines=dfn)
+        # pairwise distinct rows (as points)
+        c.add_fact(z3.ForAll([k, k2], z3.Implies(z3.And(0 <= k, k < n, 0 <= k2, k2 < n, k != k2), a.row(idx(k)) != a.row(idx(k2))),
+                             patterns=[z3.MultiPattern(idx(k), idx(k2))]), defines=dfn)
+        # every input row is represented by an equal row, which is its first occurrence
+        c.add_fact(z3.ForAll([i], z3.Implies(z3.And(0 <= i, i < rows), z3.And(0 <= rep(i), rep(i) < n, idx(rep(i)) <= i, a.row(idx(rep(i))) == a.row(i))),
+                             patterns=[rep(i)]), defines=dfn)
+        c.binders = saved
+
+    def ix(kk):
+        axioms()
+        return idx(kk)
+
+    uniq = Arr(2, (n, cols), lambda kk, jj: a.elem(ix(kk), jj), a.dtype)
+    if a.dtype == "num":
+        uniq.rowf = lambda kk: a.row(ix(kk))
+    iarr = Arr(1, (n,), lambda kk: N(ix(kk)), "num")
+    iarr.uniq = (nm, idx, n, a, rep)
     if ri is not None:
         return Val.of_tup([Val.of_arr(uniq), Val.of_arr(iarr)])
     return Val.of_arr(uniq)
@@ -1041,17 +1116,31 @@ def np_sort(eng, st, args, kw, node):
     perm = c.uf(nm, z3.IntSort(), z3.IntSort())
     inv = c.uf(nm + "!inv", z3.IntSort(), z3.IntSort())
     n = a.shape[0]
-    k, k2 = z3.Int(nm + "!k"), z3.Int(nm + "!k2")
-    c.add_fact(z3.ForAll([k], z3.Implies(z3.And(0 <= k, k < n), z3.And(0 <= perm(k), perm(k) < n, inv(perm(k)) == k)), patterns=[perm(k)]))
-    c.add_fact(z3.ForAll([k], z3.Implies(z3.And(0 <= k, k < n), z3.And(0 <= inv(k), inv(k) < n, perm(inv(k)) == k)), patterns=[inv(k)]))
-    c.binders.append([k, k2])
-    try:
-        asc = n_le(a.elem(perm(k)), a.elem(perm(k2)))
-    finally:
-        c.binders.pop()
-    c.add_fact(z3.ForAll([k, k2], z3.Implies(z3.And(0 <= k, k < k2, k2 < n), asc), patterns=[z3.MultiPattern(perm(k), perm(k2))]))
-    r = Arr(1, (n,), lambda kk: a.elem(perm(kk)), a.dtype)
-    r.perm = (perm, inv, a)
+    done = []
+
+    def axioms():
+        if done:
+            return
+        done.append(1)
+        saved, c.binders = c.binders, []
+        k, k2 = z3.Int(nm + "!k"), z3.Int(nm + "!k2")
+        dfn = [nm, nm + "!inv"]
+        c.add_fact(z3.ForAll([k], z3.Implies(z3.And(0 <= k, k < n), z3.And(0 <= perm(k), perm(k) < n, inv(perm(k)) == k)), patterns=[perm(k)]), defines=dfn)
+        c.add_fact(z3.ForAll([k], z3.Implies(z3.And(0 <= k, k < n), z3.And(0 <= inv(k), inv(k) < n, perm(inv(k)) == k)), patterns=[inv(k)]), defines=dfn)
+        c.binders.append([k, k2])
+        try:
+            asc = n_le(a.elem(perm(k)), a.elem(perm(k2)))
+        finally:
+            c.binders.pop()
+        c.add_fact(z3.ForAll([k, k2], z3.Implies(z3.And(0 <= k, k < k2, k2 < n), asc), patterns=[z3.MultiPattern(perm(k), perm(k2))]), defines=dfn)
+        c.binders = saved
+
+    def pm(kk):
+        axioms()
+        return perm(kk)
+
+    r = Arr(1, (n,), lambda kk: a.elem(pm(kk)), a.dtype)
+    r.perm = (pm, inv, a)
     return Val.of_arr(r)
 
 
@@ -1090,13 +1179,18 @@ def np_reshape(eng, st, args, kw, node):
     shp = _shape_arg(eng, args[1]) if len(args) > 1 else None
     if a is None or shp is None:
         return opaque("reshape")
+    if len(shp) == a.ndim and all(z3.simplify(x).eq(z3.simplify(y)) for x, y in zip(shp, a.shape)):
+        return Val.of_arr(a)
     f = flatten(a) if a.ndim != 1 else a
     if len(shp) == 1:
         return Val.of_arr(Arr(1, (f.shape[0],), f._elem, a.dtype, intdtype=a.intdtype))
     if len(shp) == 2:
         r, cdim = shp
         if is_lit(r, 1):
-            return Val.of_arr(Arr(2, (1, f.shape[0]), lambda i, j: f.elem(j), a.dtype, intdtype=a.intdtype))
+            rr = Arr(2, (1, f.shape[0]), lambda i, j: f.elem(j), a.dtype, intdtype=a.intdtype)
+            if a.dtype == "num":
+                rr.rowf = lambda k: f.row(None)
+            return Val.of_arr(rr)
         return Val.of_arr(Arr(2, (r, cdim), lambda i, j: f.elem(i * cdim + j), a.dtype, intdtype=a.intdtype))
     return opaque("reshape")
 
